@@ -58,7 +58,7 @@ def inl(crate, body, thread=True, **kw):
     if thread:
         from ..thread import thread_jumps
         try:
-            ib = thread_jumps(ib)
+            ib = thread_jumps(ib, fold_eq=(thread != 'noeq'))
         except RecursionError:
             pass
     return ib
@@ -484,6 +484,21 @@ def guards_of(T, target, removed=(), entry=0):
         while nd[0] == 'un' and nd[1] == 'Not' and all(l[0] == 'bool' for l in labels):
             labels = [('bool', not l[1]) for l in labels]
             dt = nd = nd[2]
+        # `match a.cmp(&b) { Greater => .., Less | Equal => .. }`: a three-way comparison is a comparison
+        if nd[0] == 'discr' and nd[1][0] == 'call' and isinstance(nd[1][1], str) and nd[1][1].endswith(('as core::cmp::Ord>::cmp', 'cmp::Ord::cmp')) and len(nd[1][2]) == 2:
+            a_, b_ = peel(nd[1][2][0]), peel(nd[1][2][1])
+            vs = set()
+            for l in labels:
+                if l[0] == 'variant':
+                    vs.add(l[1])
+                elif l[0] == 'variants':
+                    vs |= set(l[1])
+            form = {frozenset(['Greater']): ('Gt', True), frozenset(['Less']): ('Lt', True), frozenset(['Equal']): ('Eq', True),
+                    frozenset(['Less', 'Equal']): ('Gt', False), frozenset(['Greater', 'Equal']): ('Lt', False),
+                    frozenset(['Greater', 'Less']): ('Eq', False)}.get(frozenset(vs))
+            if form is not None:
+                dt = ('bin', form[0], a_, b_)
+                labels = [('bool', form[1])]
         out.append((dt, labels, bi))
     return out
 
@@ -836,3 +851,9 @@ class DropOnly(KeepOnly):
 
     def _keep(self, instance):
         return not any(str(instance).endswith(s) for s in self._s)
+
+
+def in_module_of_path(cad, adt_path, anchor):
+    """is ADT `adt_path` declared in the module of the anchoring type (or a submodule)?"""
+    mod = anchor.rsplit('::', 1)[0]
+    return adt_path.startswith(mod + '::')
